@@ -766,6 +766,33 @@ def _norm_output(t):
     return sorted(l.split() for l in t.split('\n') if l.split())
 
 
+def r10b_context_of_the_call(ctx, sym):
+    ctx.rule('R10', "... and the context an assertion reads for a proxied call result is that call's: Sandbox.get_context "
+                    "executed abstractly on five recorded executions with no group, one group and nested groups open "
+                    "(a CommandBlock started after the student's run): for every execution id the list it returns ends "
+                    "with that execution's own context, and without an id with the latest one")
+    from .. import symexec
+    smod = ctx.repo.module('pedal.sandbox.sandbox')
+    fn = smod.func('Sandbox.get_context')
+    ctx.analysed_function(smod, fn)
+    for groups in ([], [0], [2], [4], [1, 3], [2, 2]):
+        contexts = [Obj('context#%d' % i, context_id=i, output='output of execution %d\n' % i) for i in range(5)]
+        for cid in (None, 0, 1, 2, 3, 4):
+            me = symexec.self_obj(smod, 'Sandbox', _context=list(contexts), _context_group_start=list(groups))
+            fd = symexec.new_fd(sym, smod, calls={'len': len, 'reversed': lambda x: list(reversed(x))})
+            got, raised = symexec.run(fd, fn, [] if cid is None else [cid], bound_self=me, what='Sandbox.get_context')
+            want = contexts[-1] if cid is None else contexts[cid]
+            ok = raised is None and isinstance(got, list) and got and got[-1] is want
+            ctx.check(ok, 'R10', 'get_context[groups=%r,id=%r]' % (groups, cid), smod, fn,
+                      "with group starts %r, get_context(%s) %s; the assertion reads the output of the last entry, which "
+                      "must be execution %s" % (groups, '' if cid is None else cid,
+                                                'raises %s' % raised.kind if raised is not None else 'returns %s' % (
+                                                    [getattr(c, '_name', c) for c in got] if isinstance(got, list)
+                                                    else got,), 'the latest' if cid is None else cid),
+                      "student run(); with CommandBlock(): first = call('greet'); call('farewell'); "
+                      "assert_output(first, 'Hello there') judges the farewell's output")
+
+
 def r10_output_family(ctx, sym):
     ctx.rule('R10', "output assertions executed abstractly: the relation (==, in, re.search) is applied to the text "
                     "printed by the asserted execution itself - the call's own context for a proxied call result, the "
@@ -960,6 +987,7 @@ def run(ctx):
     sym = Symbols(ctx.repo)
     h = Harness(ctx, sym)
     r10_output_family(ctx, sym)
+    r10b_context_of_the_call(ctx, sym)
     r11_documented_options(ctx, sym)
 
     def run_condition(cond_fn, args, kwargs, me):
